@@ -17,7 +17,7 @@ from ..selftest import Mutant
 ID = "C28"
 TECHNIQUE = "typestate extraction by abstract interpretation of the lock methods' ASTs + field/call ownership lints (ast)"
 EXHAUSTIVE = True
-FLOOR = 60
+FLOOR = 162
 EXPLANATION = """
 Rule K8 (typestate): for breezy/counted_lock.py:CountedLock, breezy/bzr/lockable_files.py:LockableFiles and
 breezy/bzr/pack_repo.py:PackRepository (composed with the extracted LockableFiles machine as its control_files) the
